@@ -85,8 +85,25 @@ def multiword_args():
              and n.func.id == "MultiWordDetector"]
     if len(calls) != 1:
         raise X.ExtractError("run_trainer: expected one MultiWordDetector(...) call")
-    kw = {k.arg: ast.literal_eval(k.value) for k in calls[0].keywords}
-    if sorted(kw) != ["max_len", "min_len", "threshold"] or calls[0].args:
+    # positional or keyword arguments, defaults of the `def` for the ones left out (T18: the translated call of
+    # gen/TrainerRun_gen.v is normalised the same way)
+    init = X.find_func(X.parse("lib_trainer/detection_rules/multiword_detector.py"), "__init__", "MultiWordDetector")
+    names = [a.arg for a in init.args.args][1:]
+    if names != ["threshold", "min_len", "max_len"] or init.args.vararg or init.args.kwarg or init.args.kwonlyargs:
+        raise X.ExtractError("MultiWordDetector.__init__: unexpected parameters %r" % names)
+    kw = {n: ast.literal_eval(d) for n, d in zip(names[len(names) - len(init.args.defaults):], init.args.defaults)}
+    if len(calls[0].args) > len(names) or any(isinstance(a, ast.Starred) for a in calls[0].args):
+        raise X.ExtractError("MultiWordDetector call: unexpected positional arguments")
+    seen = set()
+    for n, a in zip(names, calls[0].args):
+        kw[n] = ast.literal_eval(a)
+        seen.add(n)
+    for k in calls[0].keywords:
+        if k.arg not in names or k.arg in seen:
+            raise X.ExtractError("MultiWordDetector call: unexpected keyword %r" % k.arg)
+        kw[k.arg] = ast.literal_eval(k.value)
+        seen.add(k.arg)
+    if sorted(kw) != ["max_len", "min_len", "threshold"] or not all(isinstance(v, int) and not isinstance(v, bool) for v in kw.values()):
         raise X.ExtractError("MultiWordDetector call: unexpected arguments %r" % kw)
     return kw
 
